@@ -293,6 +293,14 @@ class RoleListener:
                 st.comps['cs_inv'] = -100
         self.buffer_access(I, st, loc, node, True)
 
+    def on_exit(self, I, st, node, code):
+        # the process is ended from inside the pipeline on a path on which every library call succeeded (I/O errors are not modelled)
+        fn = self.cur_fn(I)
+        if not self.quiet:
+            self.rec.ob('R04.g', 'R04.g@%s::no-exit-on-a-successful-path' % fkey(fn), False, nloc(node),
+                        '%s role: exit(%s) is reached although no library call failed on this path' % (self.role, show(code)),
+                        path=[str(x) for x in st.trace[-8:]])
+
     def on_preload(self, I, st, loc, node):
         if loc is None:
             return
@@ -719,6 +727,8 @@ class PipelineAnalysis:
         for role, where_, path in sorted(set(div)):
             rec.ob('R04.f', 'R04.f@%s::loop-cannot-spin::%s' % (A.Bq, where_.split(':')[0]), False, where_,
                    '%s role: the loop at %s returns to the same state with no decision left open (it never ends on this path)' % (role, where_), path=list(path))
+        rec.ob('R04.g', 'R04.g@%s::pipeline-ends-by-returning' % A.Gq, not any(o.rule == 'R04.g' and o.ok is False for o in rec.obls), A.G['file'],
+               'neither role ends the process (exit/abort) on a path on which every library call succeeded')
         rec.ob('R04.f', 'R04.f@%s::no-loop-spins' % A.Gq, not div, A.G['file'],
                'no loop of the worker or I/O role (callee loops included) has a recurring head state with all decisions closed; input classes include a failing read: %s' % ('yes' if not div else 'NO'))
 
